@@ -42,6 +42,7 @@ from typing import Any, Dict, List, Optional, Set, Tuple
 
 from engines import asyncfacts as af
 from engines import c2426facts as cf
+from engines import c26norm as cn
 from engines import inline
 from engines import pyfacts as pf
 from engines.common import AnalysisError, Ctx
@@ -71,6 +72,11 @@ CLOCK_OK = ('time.monotonic_ns',)
 PRIMS = ('_put', '_remove', '_evict_oldest', '_over_capacity', 'shutdown', '__init__')
 BASE_PARAMS = ['load', 'lifetime_ns', 'num_slots', 'cache_name']
 TASK_MAKERS = ('asyncio.create_task', 'asyncio.ensure_future')
+EXP = 'self._expiry_time'
+CACHE = 'self._cache'
+NONE_FREE = (FUT, EXP)   # maps whose values are never None (tasks; clock + lifetime): `M.get(k) is None` is `k not in M`
+TRUTHY = (FUT,)          # maps whose values are always truthy (asyncio tasks)
+FUT_READERS = ('get', 'pop', 'setdefault', '__getitem__')
 
 
 class _Sfx:
@@ -120,6 +126,10 @@ class View:
         self.bodies: Dict[str, Body] = {}
         self.absorbed: Set[str] = set()
         self.deferred: List[str] = []
+        self.tt: Dict[str, cn.MapTests] = {}     # root name -> membership facts of its tests (canonical forms)
+        self.prim: Dict[str, Tuple[pf.Module, pf.FuncDef]] = {}   # `_put` / `_remove` with their own helpers inlined
+        self.prim_helpers: Set[str] = set()      # helpers that exist only as part of `_put` / `_remove`
+        self.preds: List[str] = []               # predicate / accessor helpers expanded into the roots
 
     def roots(self) -> List[Tuple[str, pf.Module, pf.FuncDef, pf.CFG, str]]:
         return [('lookup', self.mi, self.lk, self.cfg, self.k)] + [(b.name, b.m, b.fn, b.cfg, b.k) for b in self.bodies.values()]
@@ -136,9 +146,88 @@ def _regs(cfg: pf.CFG) -> List[pf.Node]:
 def _task_call(fn: pf.FuncDef, G: pf.Node) -> Optional[ast.Call]:
     """the coroutine call C in `self._futures[k] = asyncio.create_task(C)` (the task may go through a single-definition local)"""
     val = pf.resolve_expr(fn, G.ast.value)  # type: ignore[union-attr]
-    if isinstance(val, ast.Call) and pf.dotted(val.func) in TASK_MAKERS and len(val.args) == 1 and isinstance(val.args[0], ast.Call):
-        return val.args[0]
+    if isinstance(val, ast.Call) and pf.dotted(val.func) in TASK_MAKERS and len(val.args) == 1:
+        arg = pf.resolve_expr(fn, val.args[0])
+        if isinstance(arg, ast.Call):
+            return arg
     return None
+
+
+def _reads_fut(e: ast.AST) -> bool:
+    """e evaluates to a task read out of the shared map: `self._futures[x]`, `self._futures.get(x)` / .pop / .setdefault"""
+    if isinstance(e, ast.Subscript) and isinstance(e.ctx, ast.Load) and pf.nsrc(e.value) == FUT:
+        return True
+    return isinstance(e, ast.Call) and isinstance(e.func, ast.Attribute) and e.func.attr in FUT_READERS and pf.nsrc(e.func.value) == FUT
+
+
+def _task_aliases(fn: ast.AST) -> Set[str]:
+    """locals that may hold a shared task (flow-insensitive may-alias): stored into / read out of `self._futures`, and copies of those"""
+    alias: Set[str] = set()
+    copies: List[Tuple[str, str]] = []
+    for w in pf.walk_shallow(fn):
+        if isinstance(w, ast.NamedExpr) and isinstance(w.target, ast.Name):
+            tg: List[ast.AST] = [w.target]
+            val: Optional[ast.AST] = w.value
+        elif isinstance(w, ast.Assign):
+            tg, val = list(w.targets), w.value
+        elif isinstance(w, ast.AnnAssign) and w.value is not None:
+            tg, val = [w.target], w.value
+        else:
+            continue
+        names = {t.id for t in tg if isinstance(t, ast.Name)}
+        if any(_is_fut_store(t) for t in tg):
+            alias |= names
+            if isinstance(val, ast.Name):
+                alias.add(val.id)
+        elif val is not None and _reads_fut(val):
+            alias |= names
+        elif isinstance(val, ast.Name):
+            copies += [(n, val.id) for n in names]
+    changed = True
+    while changed:
+        changed = False
+        for a, b in copies:
+            if b in alias and a not in alias:
+                alias.add(a)
+                changed = True
+    return alias
+
+
+def _task_mentions(fn: pf.FuncDef, e: ast.AST, alias: Set[str]) -> List[bool]:
+    """for every mention of a shared task in the awaited expression e (read through single-definition locals, e.g. a wrapper coroutine
+    built in a statement of its own): is it wrapped in asyncio.shield?"""
+    out: List[bool] = []
+    params = {a.arg for a in fn.args.posonlyargs + fn.args.args + fn.args.kwonlyargs}
+
+    def walk(x: ast.AST, shielded: bool, depth: int) -> None:
+        if isinstance(x, ast.Lambda):
+            return
+        if _reads_fut(x) or (isinstance(x, ast.Name) and x.id in alias):
+            out.append(shielded)
+            return
+        if isinstance(x, ast.Name) and isinstance(x.ctx, ast.Load) and x.id not in params and depth > 0:
+            d = pf.single_def(fn, x.id)
+            if isinstance(d, ast.expr) and not isinstance(d, (ast.Await, ast.Yield, ast.YieldFrom)):
+                walk(d, shielded, depth - 1)
+            return
+        if isinstance(x, ast.Call) and pf.dotted(x.func) in ('asyncio.shield', 'shield'):
+            shielded = True
+        for c in ast.iter_child_nodes(x):
+            walk(c, shielded, depth)
+    walk(e, False, 3)
+    return out
+
+
+def _calls_loader(fn: pf.FuncDef, e: ast.AST, depth: int = 3) -> bool:
+    """e (read through single-definition locals) contains the call `self.load(...)`"""
+    for x in ast.walk(e):
+        if isinstance(x, ast.Call) and pf.dotted(x.func) == 'self.load':
+            return True
+        if isinstance(x, ast.Name) and isinstance(x.ctx, ast.Load) and depth > 0:
+            d = pf.single_def(fn, x.id)
+            if isinstance(d, ast.expr) and not isinstance(d, (ast.Await, ast.Yield, ast.YieldFrom)) and _calls_loader(fn, d, depth - 1):
+                return True
+    return False
 
 
 def _self_refs(node: ast.AST, name: str) -> List[ast.Attribute]:
@@ -155,8 +244,10 @@ def _view(ctx: Ctx, m: pf.Module) -> View:
     v.lk = af.method(v.mi, v.clsi, 'lookup')
     ctx.need(len(v.lk.args.args) == 2, 'lookup parameters changed')
     v.k = v.lk.args.args[1].arg
-    v.cfg = pf.cfg(v.lk)
     methods = {f.name: f for f in v.cls.body if isinstance(f, (ast.FunctionDef, ast.AsyncFunctionDef))}
+    # helpers that abbreviate one expression (`self._is_expired(k)`, `self._over_capacity()`) are read as that expression
+    v.preds += cn.inline_predicates(v.lk, {n: f for n, f in methods.items() if n != 'lookup'}, v.lk.args.args[0].arg)
+    v.cfg = pf.cfg(v.lk)
     for G in _regs(v.cfg):
         tc = _task_call(v.lk, G)
         d = pf.dotted(tc.func) if tc is not None else None
@@ -166,6 +257,7 @@ def _view(ctx: Ctx, m: pf.Module) -> View:
                      f'lookup registers `{pf.nsrc(tc)}` as the shared task: not a plain coroutine method')
             mx, ilx = inline.inline_methods(m, CLS, X, exclude=PRIMS + ('lookup',))
             fx = af.method(mx, mx.cls(CLS), X)
+            v.preds += cn.inline_predicates(fx, {n: f for n, f in methods.items() if n not in ('lookup', X)}, fx.args.args[0].arg if fx.args.args else 'self')
             ctx.need(len(fx.args.args) == 2 and not fx.args.kwonlyargs and not fx.args.vararg and not fx.args.kwarg, f'{CLS}.{X}: task body does not take exactly the key')
             ctx.need(tc is not None and [pf.nsrc(a) for a in tc.args] == [v.k] and not tc.keywords, f'lookup registers `{pf.nsrc(tc)}`: the task body is not started for the key `{v.k}`')
             v.bodies[X] = Body(X, mx, fx, ilx)
@@ -192,13 +284,21 @@ def _view(ctx: Ctx, m: pf.Module) -> View:
         ctx.need(all(u == 'lookup' or u in v.absorbed for u in users), f'{CLS}.{X} is also referenced outside lookup ({sorted(users)}): not analysed')
         started = {id(tc.func) for G in _regs(v.cfg) for tc in [_task_call(v.lk, G)] if tc is not None}
         ctx.need(all(id(r) in started for r in _self_refs(v.lk, X)), f'{CLS}.{X} is used in lookup other than as the registered task: not analysed')
+    for name, _, fn, cfg, k in v.roots():
+        v.tt[name] = cn.MapTests(fn, cfg, k, MAPS + (FUT,), NONE_FREE, TRUTHY)
+        # a same-class call that could be neither inlined nor read as an expression hides what the path rules reason about
+        for c in pf.calls_in(fn, False):
+            d = pf.dotted(c.func) or ''
+            if d.startswith('self.') and d[5:] in methods and d[5:] not in PRIMS and d[5:] not in v.bodies:
+                why = next((w for n2, _, w in roots[name][1].skipped if n2 == d[5:]), 'not a statement-level call')
+                v.deferred.append(f'{CLS}.{name}: `{pf.nsrc(c)}` calls a helper that could not be inlined ({why}): not analysed')
     return v
 
 
-def _map_writes(m: pf.Module, fn: pf.FuncDef) -> List[Tuple[str, str, str, ast.AST]]:
+def _map_writes(m: pf.Module, fn: ast.AST, nested: bool = False) -> List[Tuple[str, str, str, ast.AST]]:
     """(map, op, key-src, stmt) for every mutation of one of the three maps / _futures in fn, in source order."""
     out = []
-    for st in pf.walk_shallow(fn):
+    for st in pf.walk_shallow(fn, nested):
         if isinstance(st, ast.Assign):
             for t in st.targets:
                 if isinstance(t, ast.Subscript) and pf.nsrc(t.value) in MAPS + (FUT,):
@@ -213,8 +313,7 @@ def _map_writes(m: pf.Module, fn: pf.FuncDef) -> List[Tuple[str, str, str, ast.A
             meth = st.func.attr
             if meth in ('add', 'remove', 'discard', 'pop', 'clear', 'update', 'popitem', 'setdefault', '__setitem__', '__delitem__'):
                 out.append((pf.nsrc(st.func.value), meth, pf.nsrc(st.args[0]) if st.args else '', st))
-    out.sort(key=lambda x: (getattr(x[3], 'lineno', 0), getattr(x[3], 'col_offset', 0)))
-    return out
+    return out  # pf.walk_shallow is a pre-order walk: statement order (line numbers would misplace the body of an inlined helper)
 
 
 def _stmt_of(m: pf.Module, fn: pf.FuncDef, node: ast.AST) -> ast.stmt:
@@ -230,7 +329,31 @@ def _top_level_unconditional(fn: pf.FuncDef, st: ast.AST, m: pf.Module) -> bool:
     return any(s is x for x in fn.body)
 
 
-def _r1_maps(ctx: Ctx, m: pf.Module, cls: ast.ClassDef) -> None:
+def _prims(ctx: Ctx, v: View) -> None:
+    """`_put` / `_remove` are read with their own helpers inlined (an index update extracted into a helper is still part of them)"""
+    m, cls = v.m, v.cls
+    names = {f.name for f in cls.body if isinstance(f, (ast.FunctionDef, ast.AsyncFunctionDef))}
+    inl: Set[str] = set()
+    for nm in ('_put', '_remove'):
+        af.method(m, cls, nm)
+        mx, ilx = inline.inline_methods(m, CLS, nm, exclude=tuple(x for x in PRIMS if x != nm) + ('lookup',))
+        fx = af.method(mx, mx.cls(CLS), nm)
+        left = [c for c in pf.calls_in(fx, True) if (pf.dotted(c.func) or '').startswith('self.') and (pf.dotted(c.func) or '')[5:] in names]
+        ctx.need(not left, f'{CLS}.{nm} calls `{pf.nsrc(left[0]) if left else ""}`, which could not be inlined: map updates not analysed')
+        v.prim[nm] = (mx, fx)
+        inl |= {h for h, _ in ilx.inlined}
+    refs = {h: {f.name for f in cls.body if isinstance(f, (ast.FunctionDef, ast.AsyncFunctionDef)) and _self_refs(f, h)} for h in inl}
+    changed = True
+    while changed:
+        changed = False
+        for h in inl - v.prim_helpers:
+            if refs[h] and all(r in ('_put', '_remove') or r in v.prim_helpers for r in refs[h]):
+                v.prim_helpers.add(h)
+                changed = True
+
+
+def _r1_maps(ctx: Ctx, v: View) -> None:
+    m, cls = v.m, v.cls
     # key function of the SortedSet
     init = af.method(m, cls, '__init__')
     kdef = [st for st in init.body if isinstance(st, ast.Assign) and pf.nsrc(st.targets[0]) == 'self._keys_by_expiry']
@@ -238,10 +361,24 @@ def _r1_maps(ctx: Ctx, m: pf.Module, cls: ast.ClassDef) -> None:
     kcall = kdef[0].value
     ctx.need(pf.dotted(kcall.func) in ('sortedcontainers.SortedSet', 'SortedSet'), f'_keys_by_expiry is `{pf.nsrc(kcall)}`, not a SortedSet')
     keyf = [k.value for k in kcall.keywords if k.arg == 'key']
-    ctx.need(len(keyf) == 1 and isinstance(keyf[0], ast.Lambda) and len(keyf[0].args.args) == 1, 'SortedSet key is not a one-argument lambda')
-    lam = keyf[0]
-    reads_expiry = pf.nsrc(lam.body) == f'self._expiry_time[{lam.args.args[0].arg}]'
-    ctx.need(reads_expiry, f'SortedSet key function `{pf.nsrc(lam)}` does not read self._expiry_time[k] (ordering by expiry not recognised)')
+    ctx.need(len(keyf) == 1, 'SortedSet is not built with one key= function')
+    kf = keyf[0]
+    if isinstance(kf, ast.Lambda):
+        ctx.need(len(kf.args.args) == 1, 'SortedSet key is not a one-argument lambda')
+        kbody, kparam = kf.body, kf.args.args[0].arg
+    else:
+        # a bound method / accessor helper that abbreviates one expression: `key=self._expiry_time_of`
+        d = pf.dotted(kf) or ''
+        hs = [f for f in cls.body if isinstance(f, ast.FunctionDef) and d == f'self.{f.name}']
+        ctx.need(len(hs) == 1 and len(hs[0].args.args) == 2, f'SortedSet key `{pf.nsrc(kf)}` is neither a one-argument lambda nor a one-argument method of the class')
+        pe = cn.predicate_expr(hs[0])
+        ctx.need(pe is not None, f'SortedSet key `{pf.nsrc(kf)}`: the method does not abbreviate one expression')
+        recv = hs[0].args.args[0].arg
+        ctx.need(recv == 'self' or recv not in pf.names_in(pe), f'SortedSet key `{pf.nsrc(kf)}`: receiver is not called self')
+        kbody, kparam = pe, hs[0].args.args[1].arg
+    # `.get(k)` would order a missing key as None: only the subscript spelling is the recognised read of the expiry time
+    reads_expiry = pf.nsrc(kbody) == f'self._expiry_time[{kparam}]'
+    ctx.need(reads_expiry, f'SortedSet key function `{pf.nsrc(kf)}` does not read self._expiry_time[k] (ordering by expiry not recognised)')
 
     # the maps belong to the instance: created empty in __init__, not shared through a mutable class attribute
     for mp in ('_futures', '_cache', '_expiry_time'):
@@ -261,25 +398,32 @@ def _r1_maps(ctx: Ctx, m: pf.Module, cls: ast.ClassDef) -> None:
         else:
             raise AnalysisError(f'{cons}: not initialised with an empty dict in __init__ (found {[pf.nsrc(s) for s in own + shared]})')
 
-    put = af.method(m, cls, '_put')
-    rem = af.method(m, cls, '_remove')
+    prim = v.prim
+    (pm, put), (rm_, rem) = prim['_put'], prim['_remove']
     kp = [a.arg for a in put.args.args]
     kr = [a.arg for a in rem.args.args]
     ctx.need(len(kp) == 3 and len(kr) == 2, f'_put/_remove parameters changed: {kp} {kr}')
-    for fn, key, want, label in ((put, kp[1], {'self._cache': ('set',), 'self._expiry_time': ('set',), 'self._keys_by_expiry': ('add',)}, 'adds'),
-                                 (rem, kr[1], {'self._cache': ('del', 'pop'), 'self._expiry_time': ('del', 'pop'), 'self._keys_by_expiry': ('remove', 'discard')}, 'removes')):
-        ws = _map_writes(m, fn)
-        for mp, ops in want.items():
-            hit = [w for w in ws if w[0] == mp and w[1] in ops and w[2] == key and _top_level_unconditional(fn, w[3], m)]
-            cons = f'{F}::{CLS}.{fn.name}::{mp}'
-            ctx.check(len(hit) == 1, 'R1', cons, f'{fn.name} does not unconditionally {label[:-1]} key `{key}` {"to" if fn is put else "from"} {mp} exactly once '
-                      f'(found {[pf.nsrc(w[3]) for w in ws if w[0] == mp]}): the three maps drift apart, so the size test / the expiry test no longer '
-                      f'cover what lookup returns', m.path, fn.lineno)
+    for fm, fn, key, want, label in ((pm, put, kp[1], {'self._cache': ('set',), 'self._expiry_time': ('set',), 'self._keys_by_expiry': ('add',)}, 'adds'),
+                                     (rm_, rem, kr[1], {'self._cache': ('del', 'pop'), 'self._expiry_time': ('del', 'pop'), 'self._keys_by_expiry': ('remove', 'discard')}, 'removes')):
+        ws = _map_writes(fm, fn)
         extra = [w for w in ws if not (w[0] in want and w[1] in want[w[0]] and w[2] == key)]
         ctx.need(not extra, f'{CLS}.{fn.name}: unrecognised map mutation `{pf.nsrc(extra[0][3])}`' if extra else '')
-        # order imposed by the key function
+        allhit = True
+        for mp, ops in want.items():
+            every = [w for w in ws if w[0] == mp]
+            hit = [w for w in every if _top_level_unconditional(fn, w[3], fm)]
+            cons = f'{F}::{CLS}.{fn.name}::{mp}'
+            if len(hit) == 1 and len(every) == 1:
+                ctx.ok('R1', cons, label)
+                continue
+            allhit = False
+            # a conditional / repeated update has the right operation but a shape this rule does not decide; only "never touches the map" is a verdict
+            ctx.need(not every, f'{cons}: `{pf.nsrc(every[0][3]) if every else ""}` is conditional or repeated (shape not recognised)')
+            ctx.bad('R1', cons, f'{fn.name} never {label[:-1]} key `{key}` {"to" if fn is put else "from"} {mp}: the three maps drift apart, so the size test / the expiry test no longer '
+                    f'cover what lookup returns', m.path, fn.lineno)
+        # order imposed by the key function (statement order of the unconditional top-level updates)
         pos = {w[0]: i for i, w in enumerate(ws) if w[0] in want}
-        if len(pos) == 3:
+        if allhit and len(pos) == 3:
             if fn is put:
                 ok = pos['self._expiry_time'] < pos['self._keys_by_expiry']
                 msg = 'adds the key to the SortedSet before its expiry time is stored: the key function reads self._expiry_time[k] (KeyError / sorted by a stale time)'
@@ -287,81 +431,188 @@ def _r1_maps(ctx: Ctx, m: pf.Module, cls: ast.ClassDef) -> None:
                 ok = pos['self._keys_by_expiry'] < pos['self._expiry_time']
                 msg = 'deletes the expiry time before removing the key from the SortedSet: the removal evaluates the key function on a deleted entry (KeyError), the lookup fails'
             ctx.check(ok, 'R1', f'{F}::{CLS}.{fn.name}::order', f'{fn.name} {msg}', m.path, fn.lineno)
-    # no other method mutates the maps
+    # no other method mutates the maps -- other than by a complete update of all three (a `_remove` / `_put` written out in place)
+    INS, DEL = ('set', 'add'), ('del', 'pop', 'remove', 'discard')
+    clean = 0
     for st in cls.body:
-        if isinstance(st, (ast.FunctionDef, ast.AsyncFunctionDef)) and st.name not in ('__init__', '_put', '_remove'):
+        if isinstance(st, (ast.FunctionDef, ast.AsyncFunctionDef)) and st.name not in ('__init__', '_put', '_remove') and st.name not in v.prim_helpers:
             ws = [w for w in _map_writes(m, st) if w[0] in MAPS]
-            ctx.check(not ws, 'R1', f'{F}::{CLS}.{st.name}::no direct map mutation',
-                      f'`{pf.nsrc(ws[0][3])}` mutates a cache map outside _put/_remove: the maps can drift apart (and an expiry time rewritten in place keeps a value '
-                      f'alive beyond lifetime_ns since its load)' if ws else '', m.path, st.lineno)
+            cons = f'{F}::{CLS}.{st.name}::no direct map mutation'
+            if not ws:
+                clean += 1
+                continue
+            odd = [w for w in ws if w[1] not in INS + DEL]
+            ctx.need(not odd, f'{cons}: `{pf.nsrc(odd[0][3]) if odd else ""}` is not a recognised update of a cache map')
+            partial = None
+            for key in sorted({w[2] for w in ws}):
+                grp = [w for w in ws if w[2] == key]
+                kinds = {'ins' if w[1] in INS else 'del' for w in grp}
+                if {w[0] for w in grp} == set(MAPS) and len(kinds) == 1 and len(grp) == 3:
+                    continue  # the three maps updated together for one key
+                ctx.need(len(kinds) == 1, f'{cons}: `{pf.nsrc(grp[0][3])}` mixes insertions and removals for `{key}` (shape not recognised)')
+                partial = partial or grp[0]
+            if partial is None:
+                ctx.ok('R1', cons, 'complete three-map updates written out in place')
+            else:
+                ctx.bad('R1', cons, f'`{pf.nsrc(partial[3])}` in {st.name} updates {partial[0]} for `{partial[2]}` without the other cache maps (outside _put/_remove): the maps drift '
+                        f'apart (and an expiry time rewritten in place keeps a value alive beyond lifetime_ns since its load)', m.path, getattr(partial[3], 'lineno', st.lineno))
+    ctx.ok('R1', f'{F}::{CLS}::methods that do not touch the cache maps', {'methods': clean})
+
+
+def _capacity_form(fn: pf.FuncDef, t: pf.Node, helpers: Optional[Dict[str, pf.FuncDef]] = None) -> Optional[Tuple[ast.AST, Optional[Tuple[Any, bool]], List[pf.Node]]]:
+    """If test t measures one of the cache maps: (expression read through locals, its linear form in n = len(map) and S = self.num_slots
+    -- None when it is not such a comparison --, the nodes at which the length was read).  None when t does not look at a map size."""
+    e = pf.expand_locals(fn, t.ast)
+    if helpers and any((pf.dotted(c.func) or '').startswith('self.') for c in ast.walk(e) if isinstance(c, ast.Call)):
+        import copy as _copy
+        e = cn._PredInline(helpers, 'self').visit(_copy.deepcopy(e))  # `self._over_capacity()` read as the expression it abbreviates
+    sized = [mp for mp in MAPS if af.mentions(e, f'len({mp})')]
+    if not sized:
+        return None
+    lin = None
+    core = e.operand if isinstance(e, ast.UnaryOp) and isinstance(e.op, ast.Not) else e
+    if len(sized) == 1 and isinstance(core, ast.Compare):
+        nz = af.compare_leq_zero(core, {f'len({sized[0]})': 'n', 'self.num_slots': 'S'})
+        if nz is not None and set(nz[0]) <= {'n', 'S', '1'} and nz[0].get('n', 0) != 0:
+            d, strict = nz
+            if core is not e:  # not (d < 0)  ==  -d <= 0
+                d, strict = af.lin_neg(d), not strict
+            lin = (d, strict)
+    defs: List[pf.Node] = []
+    if pf.expand_locals(fn, t.ast) is not t.ast:
+        cfg = pf.cfg(fn)
+        for nm in sorted(pf.names_in(t.ast)):
+            dd = pf.single_def(fn, nm)
+            if isinstance(dd, ast.expr) and any(af.mentions(pf.expand_locals(fn, dd), f'len({mp})') for mp in MAPS):
+                defs += cn._assign_nodes(cfg, nm)
+    return e, lin, defs
+
+
+def _over_capacity_edges(d: Dict[str, Any], strict: bool) -> Dict[str, Optional[Tuple[int, int]]]:
+    """Which edges of the test  a*n + b*S + c (< | <=) 0  can a state with MORE than S entries (n = S + m, m >= 1, S >= 1) take?
+    label -> a witness (n, S), decided from the sign of the coefficients (the form is monotone in m and in S)."""
+    a, b, c = d.get('n', 0), d.get('S', 0), d.get('1', 0)
+    e = a + b  # f(m, S) = a*m + e*S + c
+
+    def f(m_: int, s_: int):
+        return a * m_ + e * s_ + c
+
+    def true_at(m_: int, s_: int) -> bool:
+        return f(m_, s_) < 0 if strict else f(m_, s_) <= 0
+    out: Dict[str, Optional[Tuple[int, int]]] = {'T': None, 'F': None}
+    # the extreme points of a linear form over the quadrant m >= 1, S >= 1 lie at the corner or at infinity along an axis
+    big = 10 ** 6
+    for m_, s_ in ((1, 1), (big, 1), (1, big), (big, big)):
+        lab = 'T' if true_at(m_, s_) else 'F'
+        if out[lab] is None:
+            out[lab] = (s_ + m_, s_)
+    return out
+
+
+def _is_eviction(fn: pf.FuncDef, n: pf.Node, has_evict: bool) -> bool:
+    """the node removes one key that is held in the maps: `self._evict_oldest()` or `self._remove(<key read from a cache map>)`"""
+    if has_evict and af.node_is_call(n, 'self._evict_oldest') is not None:
+        return True
+    c = af.node_is_call(n, 'self._remove')
+    if c is not None and len(c.args) == 1:
+        arg = pf.resolve_expr(fn, c.args[0])
+        return isinstance(arg, ast.Subscript) and pf.nsrc(arg.value) in MAPS
+    return False
 
 
 def _r1_capacity(ctx: Ctx, v: View) -> None:
     m, cls = v.mi, v.clsi
-    oc = af.method(m, cls, '_over_capacity')
-    body = af.body_no_doc(oc)
-    ctx.need(len(body) == 1 and isinstance(body[0], ast.Return) and body[0].value is not None, '_over_capacity is not a single return')
-    e = body[0].value
-    sized = [mp for mp in MAPS if af.mentions(e, f'len({mp})')]
-    ctx.need(len(sized) == 1, f'_over_capacity `{pf.nsrc(e)}` does not measure exactly one of the cache maps')
-    ctx.need(isinstance(e, ast.Compare), f'_over_capacity `{pf.nsrc(e)}` is not a comparison')
-    nz = af.compare_leq_zero(e, {f'len({sized[0]})': 'n', 'self.num_slots': 'S'})
-    ctx.need(nz is not None, f'_over_capacity `{pf.nsrc(e)}` is not a linear comparison of len({sized[0]}) with self.num_slots')
-    d, strict = nz  # type: ignore[misc]
-    a, b, c = d.get('n', 0), d.get('S', 0), d.get('1', 0)
-    ctx.need(set(d) <= {'n', 'S', '1'} and a != 0, f'_over_capacity `{pf.nsrc(e)}`: unrecognised linear form {af.lin_str(d)}')
-    # condition  a*n + b*S + c  (< | <=) 0  must hold whenever n >= S + 1 (integers), for every S
-    holds = a < 0 and a + b == 0 and ((a + c < 0) if strict else (a + c <= 0))
-    ctx.check(holds, 'R1', f'{F}::{CLS}._over_capacity', f'`{pf.nsrc(e)}` (i.e. {af.lin_str(d)} {"<" if strict else "<="} 0) is false for len = num_slots + 1: '
-              f'the insertion that exceeds the capacity is not compensated and the cache holds more than num_slots entries', m.path, oc.lineno,
-              detail={'test': pf.nsrc(e)})
-    eo = af.method(m, cls, '_evict_oldest')
-    cfg = pf.cfg(eo)
-    rm = af.stmt_nodes(cfg, lambda n: af.node_is_call(n, 'self._remove') is not None)
-    ok = len(rm) == 1 and cfg.dominated_by(cfg.exit, lambda n: n is rm[0])
-    ctx.check(ok, 'R1', f'{F}::{CLS}._evict_oldest', '_evict_oldest does not unconditionally remove one key: an insertion over capacity is not compensated',
-              m.path, eo.lineno)
-    if ok:
-        c = af.node_is_call(rm[0], 'self._remove')
-        arg = pf.resolve_expr(eo, c.args[0]) if c is not None and c.args else None
-        held = isinstance(arg, ast.Subscript) and pf.nsrc(arg.value) in MAPS
-        ctx.need(held, f'_evict_oldest removes `{pf.nsrc(arg) if arg is not None else "?"}`, not a key read from the cache maps')
+    methods = {f.name: f for f in cls.body if isinstance(f, (ast.FunctionDef, ast.AsyncFunctionDef))}
+    has_evict = '_evict_oldest' in methods
+    if has_evict:
+        eo = methods['_evict_oldest']
+        cfg = pf.cfg(eo)
+        rm = af.stmt_nodes(cfg, lambda n: af.node_is_call(n, 'self._remove') is not None)
+        ok = len(rm) == 1 and cfg.dominated_by(cfg.exit, lambda n: n is rm[0])
+        if not ok:
+            # a verdict needs a body that is understood: no removal at all and nothing that could hide one
+            opaque = rm or [c for c in pf.calls_in(eo, True) if (pf.dotted(c.func) or '').startswith('self.')] or _map_writes(m, eo)
+            ctx.need(not opaque, '_evict_oldest does not remove exactly one key on every path through one `self._remove(...)` call (shape not recognised)')
+            ctx.bad('R1', f'{F}::{CLS}::eviction removes one held key', '_evict_oldest removes nothing: an insertion over capacity is not compensated', m.path, eo.lineno)
+        else:
+            ctx.ok('R1', f'{F}::{CLS}::eviction removes one held key', '_evict_oldest always removes one key')
+            c = af.node_is_call(rm[0], 'self._remove')
+            arg = pf.resolve_expr(eo, c.args[0]) if c is not None and c.args else None
+            held = isinstance(arg, ast.Subscript) and pf.nsrc(arg.value) in MAPS
+            ctx.need(held, f'_evict_oldest removes `{pf.nsrc(arg) if arg is not None else "?"}`, not a key read from the cache maps')
 
     n = 0
     for name, mm, fn, fcfg, _ in v.roots():
         puts = af.stmt_nodes(fcfg, lambda x: af.node_is_call(x, 'self._put') is not None)
         n += len(puts)
-        _capacity_after_puts(ctx, mm, name, fcfg, puts)
+        _capacity_after_puts(ctx, mm, name, fn, fcfg, puts, has_evict)
     ctx.need(n >= 1, 'neither lookup nor the task it registers calls _put (directly or through an inlinable helper)')
+    if not has_evict:
+        evs_all = [x for _, _, fn, fcfg, _ in v.roots() for x in af.stmt_nodes(fcfg, lambda y, fn=fn: _is_eviction(fn, y, False))]
+        ctx.need(bool(evs_all), 'no `_evict_oldest` method and no `self._remove(<key read from a cache map>)` on the loader path (eviction not recognised)')
+        ctx.ok('R1', f'{F}::{CLS}::eviction removes one held key', f'`{evs_all[0].text()}` written out on the loader path')
 
 
-def _capacity_after_puts(ctx: Ctx, m: pf.Module, fname: str, cfg: pf.CFG, puts: List[pf.Node]) -> None:
-    for P in puts:
-        cons = f'{F}::{CLS}.{fname}::{P.text()}'
+def _capacity_after_puts(ctx: Ctx, m: pf.Module, fname: str, fn: pf.FuncDef, cfg: pf.CFG, puts: List[pf.Node], has_evict: bool) -> None:
+    cls = m.cls(CLS)
+    put_m = af.method(m, cls, '_put')
+    for i, P in enumerate(puts):
+        cons = f'{F}::{CLS}.{fname}::insertion{" #" + str(i + 1) if i else ""} is followed by the capacity test'
         pc = af.node_is_call(P, 'self._put')
         if pc is not None and pc.args and _removes_first(cfg, P, pf.nsrc(pc.args[0]), absent_edges=False):
             ctx.ok('R1', cons, 'replaces the entry it has just removed: the number of entries does not grow')
             continue
-        tests = [t for t in cfg.nodes if t.kind == 'test' and af.mentions(t.ast, 'self._over_capacity()')]
-        evs = af.stmt_nodes(cfg, lambda n: af.node_is_call(n, 'self._evict_oldest') is not None)
-        verdict = None
-        for t in tests:
-            for lab in ('T', 'F'):
-                if af.implied_on_edge(t.ast, 'T' if lab == 'F' else 'F', 'self._over_capacity()', False) and \
-                        af.must_pass(cfg, P, lambda n: n is cfg.exit, lambda n: n is t) is None and \
-                        evs and af.must_pass(cfg, t, lambda n: n is cfg.exit, lambda n: any(n is x for x in evs), first_label=lab) is None:
-                    verdict = (t, lab)
-        if verdict is None:
-            ctx.bad('R1', cons, 'after the insertion some path returns without `if self._over_capacity(): self._evict_oldest()`: each such lookup leaves one '
-                    'more entry than num_slots in the cache', m.path, P.lineno)
+        helpers = {f.name: f for f in cls.body if isinstance(f, (ast.FunctionDef, ast.AsyncFunctionDef)) and f is not fn}
+        forms = {t.id: _capacity_form(fn, t, helpers) for t in cfg.nodes if t.kind == 'test' and t.ast is not None}
+        tests = [t for t in cfg.nodes if t.kind == 'test' and forms.get(t.id) is not None]
+        after = [t for t in tests if af.direct(cfg, P, t)]
+        evs = af.stmt_nodes(cfg, lambda x: _is_eviction(fn, x, has_evict))
+        if not after:
+            # "no capacity test" is a verdict only if nothing else could bound the cache: no size test anywhere in this frame, no eviction,
+            # and a `_put` that is the plain three-map insertion (no eviction moved into it)
+            hidden = [c for c in pf.calls_in(put_m, True) if (pf.dotted(c.func) or '').startswith('self.') and not (pf.dotted(c.func) or '').startswith(MAPS)] \
+                or [x for x in pf.walk_shallow(put_m) if isinstance(x, (ast.If, ast.While))]
+            ctx.need(not tests and not evs and not hidden, f'{cons}: no size test follows `{P.text()}` but the frame / `_put` tests the size or evicts elsewhere (shape not recognised)')
+            ctx.bad('R1', cons, f'after `{P.text()}` the frame returns without ever comparing the number of entries with num_slots and evicting: each such lookup leaves one '
+                    'more entry in the cache, which grows beyond num_slots', m.path, P.lineno)
             continue
-        region = [cfg.nodes[i] for i in cfg.reachable_from(P) if cfg.nodes[i] is not P]
-        aw = [x for x in region if pf.node_has_await(x)]
+        ctx.need(len(after) == 1, f'{cons}: {len(after)} size tests follow `{P.text()}` (shape not recognised)')
+        t = after[0]
+        e, lin, defs = forms[t.id]  # type: ignore[misc]
+        ctx.need(lin is not None, f'{cons}: `{pf.nsrc(e)}` is not a linear comparison of the size of one cache map with self.num_slots')
+        ctx.need(af.must_pass(cfg, P, lambda x: x is cfg.exit, lambda x: x is t) is None, f'{cons}: some path from `{P.text()}` to the return does not evaluate `{pf.nsrc(t.ast)}` (not analysed)')
+        # a size read into a local must have been read after the insertion
+        ctx.need(all(af.direct(cfg, P, d) and cfg.dominated_by(d, lambda x: x is P) for d in defs),
+                 f'{cons}: the size tested by `{pf.nsrc(t.ast)}` is read into a local before the insertion (not analysed)')
+        d, strict = lin  # type: ignore[misc]
+        reach = _over_capacity_edges(d, strict)
+        failing = None
+        for lab in ('T', 'F'):
+            w = reach[lab]
+            if w is None or not any(l2 == lab for _, l2 in t.succ):
+                continue
+            p = af.must_pass(cfg, t, lambda x: x is cfg.exit, lambda x: any(x is y for y in evs), first_label=lab)
+            if p is not None:
+                failing = (lab, w)
+        cons_t = f'{F}::{CLS}.{fname}::capacity test{" #" + str(i + 1) if i else ""}'
+        if failing is not None:
+            lab, w = failing
+            ctx.bad('R1', cons_t, f'`{pf.nsrc(e)}` (i.e. {af.lin_str(d)} {"<" if strict else "<="} 0) is {lab == "T"} for len = {w[0]}, num_slots = {w[1]}, and on that branch '
+                    f'the frame returns without evicting: the insertion that exceeds the capacity is not compensated and the cache holds more than num_slots entries',
+                    m.path, t.lineno)
+            continue
+        ctx.ok('R1', cons_t, {'test': pf.nsrc(e), 'over-capacity states take': [lab for lab in ('T', 'F') if reach[lab] is not None]})
+        between = list(af.between(cfg, P, t)) + [t]
+        for lab in ('T', 'F'):
+            if reach[lab] is not None:
+                for ev in evs:
+                    between += af.between(cfg, t, ev, lab)
+        aw = [x for x in between if pf.node_has_await(x)]
         ctx.check(not aw, 'R1', cons, f'`{aw[0].text() if aw else ""}` suspends between the insertion and the eviction: other lookups observe (and add to) an '
-                  f'over-full cache', m.path, P.lineno, detail={'test': pf.nsrc(verdict[0].ast)})
+                  f'over-full cache', m.path, P.lineno, detail={'test': pf.nsrc(e)})
 
 
-def _removes_first(cfg: pf.CFG, node: pf.Node, key: str, absent_edges: bool = True) -> bool:
+def _removes_first(cfg: pf.CFG, node: pf.Node, key: str, absent_edges: bool = True, tt: Optional[cn.MapTests] = None) -> bool:
     """Forward must-analysis: on every path to `node` the last relevant event is `self._remove(key)` or the absent edge of a
     membership test of `key` in one of the three maps, with no suspension and no insertion afterwards."""
     def is_rm(n: pf.Node) -> bool:
@@ -375,8 +626,11 @@ def _removes_first(cfg: pf.CFG, node: pf.Node, key: str, absent_edges: bool = Tr
     out[cfg.entry.id] = False
 
     def edge_val(a: pf.Node, lab: str) -> bool:
-        if absent_edges and a.kind == 'test' and lab in ('T', 'F') and any(cf.implied(a.ast, lab, f'{key} in {mp}', False) for mp in MAPS):
-            return True
+        if absent_edges and a.kind == 'test' and lab in ('T', 'F'):
+            if any(cf.implied(a.ast, lab, f'{key} in {mp}', False) for mp in MAPS):
+                return True
+            if tt is not None and tt.key == key and not tt.decisions(a) and any(tt.implies(a, lab, mp, False) for mp in MAPS):
+                return True  # the same fact in another spelling (`M.get(k) is None`), read in the test itself
         return out[a.id]
     changed = True
     while changed:
@@ -409,7 +663,7 @@ def _r1_put_callers(ctx: Ctx, v: View) -> None:
     (SortedSet caches the key function's value).  `_put` is therefore only sound where the key is absent from the index: on lookup's loader
     path (absent at the miss decision, single flight keeps it absent; the registered task body is part of that path), or right after removing it."""
     m, cls = v.m, v.cls
-    put = af.method(m, cls, '_put')
+    put = v.prim['_put'][1]
     kp = put.args.args[1].arg
     pcfg = pf.cfg(put)
     adds = af.stmt_nodes(pcfg, lambda n: af.node_is_call(n, 'self._keys_by_expiry.add') is not None)
@@ -435,20 +689,29 @@ def _r1_put_callers(ctx: Ctx, v: View) -> None:
             # absent at the miss decision -- unless this very frame read the key's entry as still present before (a hit that re-inserts)
             ctx.ok('R1', cons + '::key absent', 'on lookup\'s loader path (analysed inlined)' if parts[1] not in v.bodies else 'in the task body registered by lookup on a miss')
             continue
-        ok = bool(nodes) and all(_removes_first(fcfg, x, key) for x in nodes)
+        ftt = cn.MapTests(fn, fcfg, key, MAPS + (FUT,), NONE_FREE, TRUTHY)
+        ok = bool(nodes) and all(_removes_first(fcfg, x, key, tt=ftt) for x in nodes)
+        if not ok:
+            unk = [t for t in ftt.tests if any(ftt.foreign_atoms(t, mp) for mp in MAPS)]
+            ctx.need(not unk and nodes, f'{cons}::key absent: `{pf.nsrc(unk[0].ast) if unk else pf.nsrc(c)}` reads a cache map in a way that is not recognised (not analysed)')
         ctx.check(ok, 'R1', cons + '::key absent', f'`{pf.nsrc(c)}` in {q} can run while `{key}` is still filed in the expiry index: SortedSet.add is a no-op for a member, so the key '
                   'stays filed under its old expiry while _expiry_time changes; the next _remove/_evict_oldest of it raises, eviction stops working (unbounded growth) and lookups '
                   'of unrelated keys fail', m.path, c.lineno)
         if ok and nodes:
-            _capacity_after_puts(ctx, m, q.split('.', 1)[1], fcfg, nodes)
+            _capacity_after_puts(ctx, m, q.split('.', 1)[1], fn, fcfg, nodes, any(isinstance(f, ast.FunctionDef) and f.name == '_evict_oldest' for f in cls.body))
     ctx.need(n >= 1, '_put is never called')
     # on the loader path itself: a `_put` that is reachable from the HIT side of the `k in self._cache` test re-files a key that is still filed
     cfg, k = v.cfg, v.k
-    hits = [t for t in cfg.nodes if t.kind == 'test' and pf.nsrc(t.ast) == f'{k} in self._cache']
+    tt = v.tt['lookup']
     for P in af.stmt_nodes(cfg, lambda x: (c := af.node_is_call(x, 'self._put')) is not None and bool(c.args) and pf.nsrc(c.args[0]) == k):
-        for t in hits:
-            if af.direct(cfg, t, P, 'T') and not _removes_first(cfg, P, k):
-                ctx.bad('R1', f'{F}::{CLS}.lookup::{P.text()}::key absent', f'`{P.text()}` is reachable from the hit side of `{k} in self._cache` without removing `{k}` first: '
+        absent = [(t2, l2) for mp in MAPS for t2, l2 in tt.edges(mp, False)]
+        for t, hl in [e2 for mp in MAPS for e2 in tt.edges(mp, True)]:
+            # a path from "the key is filed" (in any of the three maps: they hold the same keys) to the insertion on which it is neither removed nor found absent again
+            w = af.must_pass(cfg, t, lambda x: x is P, lambda x: (c := af.node_is_call(x, 'self._remove')) is not None and [pf.nsrc(a) for a in c.args] == [k],
+                             first_label=hl, edge_ok=lambda a, b, l2: not any(a is t2 and l2 == l3 for t2, l3 in absent))
+            if w is not None:
+                ctx.bad('R1', f'{F}::{CLS}.lookup::{P.text()}::key absent', f'`{P.text()}` is reachable from the hit side of `{pf.nsrc(t.ast)}` (key filed) without removing `{k}` first '
+                        f'(via `{w[-2].text() if len(w) > 1 else ""}`): '
                         'SortedSet.add is a no-op for a member, the key stays filed under its old expiry while _expiry_time changes; the next _remove/_evict_oldest of it raises '
                         'and eviction stops working', v.mi.path, P.lineno)
                 break
@@ -457,39 +720,45 @@ def _r1_put_callers(ctx: Ctx, v: View) -> None:
 def _r2_fresh(ctx: Ctx, v: View) -> Optional[Tuple[pf.Node, str, pf.Node]]:
     """returns (expiry test node, label of the edge that removes the expired entry) when recognised"""
     m, cls = v.mi, v.clsi
-    put = af.method(m, cls, '_put')
+    put = v.prim['_put'][1]
     ws = [w for w in _map_writes(m, put) if w[0] == 'self._expiry_time' and w[1] == 'set']
     ctx.need(len(ws) == 1, '_put: expiry write not found')
-    val = pf.resolve_expr(put, ws[0][3].value)  # type: ignore[attr-defined]
+    val = pf.expand_locals(put, ws[0][3].value)  # type: ignore[attr-defined]
     clocks = [c for c in ast.walk(val) if isinstance(c, ast.Call) and (pf.dotted(c.func) or '').startswith('time.')]
     ctx.need(len(clocks) == 1, f'_put: expiry `{pf.nsrc(val)}` does not read exactly one clock')
     clock_src = pf.nsrc(clocks[0])
     lin = af.linear(val, {clock_src: 'clock', 'self.lifetime_ns': 'L'})
-    cons = f'{F}::{CLS}._put::expiry `{pf.nsrc(val)}`'
+    cons = f'{F}::{CLS}._put::expiry'
     ctx.need(lin is not None, f'{cons}: not linear in clock / lifetime_ns')
-    ctx.check(lin == {'clock': 1, 'L': 1}, 'R2', cons, f'expiry is {af.lin_str(lin)}, not clock + lifetime_ns: entries outlive (or never reach) their lifetime',  # type: ignore[arg-type]
+    ctx.check(lin == {'clock': 1, 'L': 1}, 'R2', cons, f'expiry `{pf.nsrc(val)}` is {af.lin_str(lin)}, not clock + lifetime_ns: entries outlive (or never reach) their lifetime',  # type: ignore[arg-type]
               m.path, put.lineno)
     ctx.check(pf.dotted(clocks[0].func) in CLOCK_OK, 'R2', f'{F}::{CLS}._put::clock', f'expiry uses `{clock_src}`, whose unit/epoch does not match lifetime_ns '
               f'(a monotonic nanosecond clock is required)', m.path, put.lineno)
 
     lk, cfg, k = v.lk, v.cfg, v.k
+    tt = v.tt['lookup']
     hits = af.stmt_nodes(cfg, lambda n: n.kind == 'return' and n.ast.value is not None and any(
         isinstance(x, ast.Subscript) and pf.nsrc(x.value) == 'self._cache' for x in ast.walk(n.ast.value)))
     if not hits:
         # the hit read through a local: `hit = self._cache[k]; ...; return hit` (the flow from the read to the return is judged by the provenance rule)
-        hits = af.stmt_nodes(cfg, lambda n: n.kind == 'stmt' and isinstance(n.ast, ast.Assign) and len(n.ast.targets) == 1 and isinstance(n.ast.targets[0], ast.Name)
-                             and isinstance(n.ast.value, ast.Subscript) and pf.nsrc(n.ast.value.value) == 'self._cache')
+        hits = af.stmt_nodes(cfg, lambda n: n.kind == 'stmt' and isinstance(n.ast, (ast.Assign, ast.AnnAssign)) and isinstance(n.ast.value, ast.Subscript)
+                             and pf.nsrc(n.ast.value.value) == 'self._cache'
+                             and all(isinstance(t2, ast.Name) for t2 in (n.ast.targets if isinstance(n.ast, ast.Assign) else [n.ast.target])))
     ctx.need(len(hits) == 1, f'lookup: expected one return of a cached value, found {len(hits)}')
     H = hits[0]
-    cons = f'{F}::{CLS}.lookup::{H.text()}'
-    ctx.need(pf.nsrc(H.ast.value) == f'self._cache[{k}]', f'{cons}: returns a cached value for a different key')  # type: ignore[union-attr]
-    # membership test on the expiry map (or cache map) dominating the hit
-    exp_src = f'self._expiry_time[{k}]'
-    # tests are read through single-definition locals (`left = self._expiry_time[k] - time.monotonic_ns(); if left <= 0:`)
-    rexp = {t.id: pf.expand_locals(lk, t.ast) for t in cfg.nodes if t.kind == 'test'}
-    xs = [t for t in cfg.nodes if t.kind == 'test' and af.mentions(rexp[t.id], exp_src)]
+    cons = f'{F}::{CLS}.lookup::hit'
+    ctx.need(pf.nsrc(H.ast.value) == f'self._cache[{k}]', f'{cons}: `{H.text()}` returns a cached value for a different key')  # type: ignore[union-attr]
+    # the test that compares the expiry time of the key with a clock (read through locals, `.get` idiom, predicate helpers: engines/c26norm)
+    exp_src = f'{EXP}[{k}]'
+    rexp = {t.id: tt.norm(t) for t in tt.tests}
+    xs = [t for t in tt.tests if af.mentions(rexp[t.id], exp_src)]
     if not xs:
-        ctx.bad('R2', cons, 'the cached value is returned without comparing its expiry time with the clock: values older than lifetime_ns are served', m.path, H.lineno)
+        # "never compared" is a verdict only if lookup does not look at the expiry map in any other way on its way to the hit
+        other = [n for n in cfg.nodes if n.ast is not None and n is not H and af.direct(cfg, n, H)
+                 and any(isinstance(x, ast.Attribute) and pf.nsrc(x) == EXP for e in pf.node_exprs(n) for x in pf.walk_shallow(e))
+                 and not (n.kind == 'test' and not tt.foreign_atoms(n, EXP))]
+        ctx.need(not other, f'{cons}: `{other[0].text() if other else ""}` reads {EXP} in a way that is not recognised as the expiry test (not analysed)')
+        ctx.bad('R2', cons, f'the cached value is returned by `{H.text()}` without comparing its expiry time with the clock: values older than lifetime_ns are served', m.path, H.lineno)
         af.blocked(ctx, 'R2', 'R2')
         return None
     ctx.need(len(xs) == 1, f'lookup: {len(xs)} tests read {exp_src}')
@@ -500,79 +769,80 @@ def _r2_fresh(ctx: Ctx, v: View) -> Optional[Tuple[pf.Node, str, pf.Node]]:
     ctx.check(pf.nsrc(cl[0]) == clock_src, 'R2', f'{F}::{CLS}.lookup::same clock', f'lookup compares the expiry with `{pf.nsrc(cl[0])}` but _put computes it from '
               f'`{clock_src}`: the comparison is meaningless', m.path, X.lineno)
     rms = af.stmt_nodes(cfg, lambda n: (c := af.node_is_call(n, 'self._remove')) is not None and [pf.nsrc(a) for a in c.args] == [k])
-    lab = None
-    for cand in ('T', 'F'):
-        if rms and af.must_pass(cfg, X, lambda n: n is H, lambda n: any(n is r for r in rms), first_label=cand) is None and af.direct(cfg, X, rms[0], cand):
-            lab = cand
-    consx = f'{F}::{CLS}.lookup::expiry test `{pf.nsrc(Xe)}`'
-    if lab is None:
-        ctx.bad('R2', consx, f'no branch of the expiry test removes the entry before the hit test: an expired value is still returned by `{H.text()}`', m.path, X.lineno)
-        af.blocked(ctx, 'R2', 'R2')
-        return None
+
+    def served_after(lab2: str) -> Optional[List[pf.Node]]:
+        """a path from the `lab2` edge of the expiry test to the hit on which the entry is not removed"""
+        return af.must_pass(cfg, X, lambda n: n is H, lambda n: any(n is r for r in rms), first_label=lab2)
+    consx = f'{F}::{CLS}.lookup::expiry test'
     if isinstance(Xe, ast.Compare):
         # an expiry test with a grace term:  expiry + c <= now  removes only entries that are more than c past their expiry
         nzg = af.compare_leq_zero(Xe, {exp_src: 'E', pf.nsrc(cl[0]): 'N', 'self.lifetime_ns': 'Lt'})
         if nzg is not None and set(nzg[0]) <= {'E', 'N', 'Lt', '1'} and set(nzg[0]) - {'E', 'N'}:
             dg = nzg[0]
-            sign = 1 if lab == 'T' else -1
-            if dg.get('E', 0) == sign and dg.get('N', 0) == -sign:
-                slack = [sign * dg.get('1', 0), sign * dg.get('Lt', 0)]
-                if all(x >= 0 for x in slack) and any(x > 0 for x in slack):
-                    ctx.bad('R2', consx, f'the expired entry is removed only when {af.lin_str(dg)} {"<" if nzg[1] else "<="} 0 is {lab == "T"}: an entry is still served '
-                            f'{"for " + str(slack[0]) + " ns" if slack[0] else ""}{" and " if slack[0] and slack[1] else ""}{"for " + str(slack[1]) + " lifetimes" if slack[1] else ""} after its '
-                            f'expiry time, i.e. a value older than lifetime_ns is returned', m.path, X.lineno)
-                    af.blocked(ctx, 'R2', 'R2')
-                    return None
+            for lab2 in ('T', 'F'):
+                sign = 1 if lab2 == 'T' else -1
+                if dg.get('E', 0) == sign and dg.get('N', 0) == -sign and served_after('F' if lab2 == 'T' else 'T') is not None:
+                    slack = [sign * dg.get('1', 0), sign * dg.get('Lt', 0)]
+                    if all(x >= 0 for x in slack) and any(x > 0 for x in slack):
+                        ctx.bad('R2', consx, f'the expired entry is removed only when {af.lin_str(dg)} {"<" if nzg[1] else "<="} 0 is {lab2 == "T"}: an entry is still served '
+                                f'{"for " + str(slack[0]) + " ns" if slack[0] else ""}{" and " if slack[0] and slack[1] else ""}{"for " + str(slack[1]) + " lifetimes" if slack[1] else ""} after its '
+                                f'expiry time, i.e. a value older than lifetime_ns is returned', m.path, X.lineno)
+                        af.blocked(ctx, 'R2', 'R2')
+                        return None
     ev = af.TestEval(exp_src, pf.nsrc(cl[0]), [])
     rows = ev.rows(Xe)
-    stale = [r for r in rows if r[0] == '<' and r[2] != (lab == 'T')]
-    ctx.check(not stale, 'R2', consx, f'an entry whose expiry time is before the current clock value is not removed (branch {lab} removes, but the test is '
-              f'{stale[0][2] if stale else ""} for expiry < now): a value older than its lifetime is returned', m.path, X.lineno)
-    if Xe is not X.ast:
-        # the comparison was read through locals: their definitions must not be separated from the test by a suspension
-        defs = [n for n in cfg.nodes if n.kind == 'stmt' and isinstance(n.ast, ast.Assign) and any(isinstance(t2, ast.Name) and t2.id in pf.names_in(X.ast) for t2 in n.ast.targets)]
-        ctx.need(bool(defs), f'{consx}: definitions of the locals not found')
-        st_aw = [x for d in defs for x in af.between(cfg, d, X) if pf.node_has_await(x)]
+    # the edges an EXPIRED entry (expiry < now) can take: on each of them the entry must be removed before the hit can be reached
+    stale_labs = [lab2 for lab2 in ('T', 'F') if any(r[0] == '<' and r[2] == (lab2 == 'T') for r in rows)]
+    ctx.need(stale_labs, f'{consx}: `{pf.nsrc(Xe)}` is never evaluated for an expired entry (not analysed)')
+    for lab2 in stale_labs:
+        p = served_after(lab2)
+        if p is not None:
+            ctx.bad('R2', consx, f'`{pf.nsrc(Xe)}` is {lab2 == "T"} for an entry whose expiry time is before the current clock value, and on that branch the entry is not '
+                    f'removed before `{H.text()}` returns it: a value older than its lifetime is served', m.path, X.lineno)
+            af.blocked(ctx, 'R2', 'R2')
+            return None
+    ctx.need(len(stale_labs) == 1, f'{consx}: an expired entry can take both branches of `{pf.nsrc(Xe)}` (not analysed)')
+    lab = stale_labs[0]
+    ctx.ok('R2', consx, {'test': pf.nsrc(Xe), 'expired entries take': lab})
+    seen_at = tt.decisions(X)
+    if seen_at:
+        # the comparison was read through locals: their definitions must not be separated from the test by a suspension / a change of the entry
+        st_aw = [x for d in seen_at for x in af.between(cfg, d, X) if pf.node_has_await(x)]
         ctx.check(not st_aw, 'R2', consx + '::clock read fresh', f'`{st_aw[0].text() if st_aw else ""}` suspends between reading the clock/expiry into a local and testing it', m.path, X.lineno)
-    # every path to the hit evaluates the expiry test, unless the key has no expiry entry at all
-    ms = [t for t in cfg.nodes if t.kind == 'test' and pf.nsrc(t.ast) in (f'{k} in self._expiry_time', f'{k} in self._cache', f'{k} in self._keys_by_expiry')
-          and af.direct(cfg, t, X, 'T') and cfg.dominated_by(X, lambda n, t=t: n is t)]
+        ch = [x for d in seen_at for x in af.between(cfg, d, X) if any(pf.dotted(c.func) in ('self._put', 'self._remove', 'self._evict_oldest') for c in pf.node_calls(x))]
+        ctx.need(not ch, f'{consx}: `{ch[0].text() if ch else ""}` changes the entry between reading its expiry into a local and testing it (not analysed)')
+    # every path to the hit evaluates the expiry test, unless the key has no entry at all (the three maps hold the same keys: R1)
+    absent = [(t, l2) for mp in MAPS for t, l2 in tt.edges(mp, False)]
     skip = cfg.path_avoiding(cfg.entry, lambda n: n is H, lambda n: n is X,
-                             edge_ok=lambda a, b, l2: not (any(a is t for t in ms) and l2 == 'F'))
+                             edge_ok=lambda a, b, l2: not any(a is t and l2 == l3 for t, l3 in absent))
+    if skip is not None:
+        unk = [t for t in skip if t.kind == 'test' and any(tt.foreign_atoms(t, mp) for mp in MAPS)]
+        ctx.need(not unk, f'{cons}: `{pf.nsrc(unk[0].ast) if unk else ""}` on a path to the hit reads a cache map in a way that is not recognised (not analysed)')
     ctx.check(skip is None, 'R2', cons + '::dominated by expiry test',
               'a path reaches the cached-value return without evaluating the expiry test (other than through "key has no entry"): stale values are served'
               + (f' (via `{skip[-2].text()}`)' if skip and len(skip) > 1 else ''), m.path, H.lineno)
-    aw = [x for x in af.between(cfg, X, H) if pf.node_has_await(x)]
+    aw = [x for d in (seen_at or [X]) for x in af.between(cfg, d, H) if pf.node_has_await(x)]
     ctx.check(not aw, 'R2', cons + '::atomic', f'`{aw[0].text() if aw else ""}` suspends between the expiry test and the return: the value can expire (or be replaced) '
               'in between', m.path, H.lineno)
     # the hit is guarded by membership in the cache
-    g = [t for t in cfg.nodes if t.kind == 'test' and pf.nsrc(t.ast) == f'{k} in self._cache' and af.every_path_uses_edge(cfg, H, t, 'T')]
-    ctx.need(bool(g), f'{cons}: not guarded by `{k} in self._cache`')
+    g = [(t, l2) for mp in MAPS for t, l2 in tt.edges(mp, True) if af.every_path_uses_edge(cfg, H, t, l2)]
+    ctx.need(bool(g), f'{cons}: `{H.text()}` is not guarded by `{k} in self._cache`')
     return X, lab, H
 
 
-def _is_load_await(e: ast.AST, alias: Set[str] = frozenset()) -> bool:  # type: ignore[assignment]
-    """`await <expr>` whose operand waits for the load: it mentions the shared task `self._futures[...]` (or a local holding it) or calls `self.load(...)`"""
+def _is_load_await(fn: pf.FuncDef, e: ast.AST, alias: Set[str] = frozenset()) -> bool:  # type: ignore[assignment]
+    """`await <expr>` whose operand waits for the load: it mentions the shared task `self._futures[...]` (or a local holding it) or calls
+    `self.load(...)` -- directly or through single-definition locals (a timing wrapper built in a statement of its own)"""
     if not isinstance(e, ast.Await):
         return False
-    for x in ast.walk(e.value):
-        if isinstance(x, ast.Subscript) and pf.nsrc(x.value) == FUT:
-            return True
-        if isinstance(x, ast.Name) and x.id in alias:
-            return True
-        if isinstance(x, ast.Call) and pf.dotted(x.func) == 'self.load':
-            return True
-    return False
+    return bool(_task_mentions(fn, e.value, alias)) or _calls_loader(fn, e.value)
 
 
 def _r2_provenance(ctx: Ctx, v: View, xinfo: Optional[Tuple[pf.Node, str, pf.Node]]) -> None:
     """Every value lookup returns (directly or as the result of the shared task) and every value handed to `_put` is the result of the
     awaited load.  The one direct `return self._cache[k]` is the hit judged by the freshness rules above."""
     for name, mm, fn, cfg, k in v.roots():
-        alias: Set[str] = set()
-        for w in pf.walk_shallow(fn):
-            if isinstance(w, ast.Assign) and any(_is_fut_store(t) for t in w.targets):
-                alias |= {t.id for t in w.targets if isinstance(t, ast.Name)} | ({w.value.id} if isinstance(w.value, ast.Name) else set())
+        alias = _task_aliases(fn)
         uses: List[Tuple[pf.Node, ast.AST, str]] = []
         for n in af.stmt_nodes(cfg, lambda n: n.kind == 'return' and n.ast.value is not None):
             uses.append((n, n.ast.value, 'return'))  # type: ignore[union-attr]
@@ -590,7 +860,7 @@ def _r2_provenance(ctx: Ctx, v: View, xinfo: Optional[Tuple[pf.Node, str, pf.Nod
             stale: List[str] = []
             unknown: List[str] = []
             for o in cf.origins(fn, cfg, U, e):
-                if o.kind == 'await' and _is_load_await(o.expr, alias):  # type: ignore[arg-type]
+                if o.kind == 'await' and _is_load_await(fn, o.expr, alias):  # type: ignore[arg-type]
                     continue
                 is_cache = (o.kind == 'subscript' and pf.nsrc(o.expr.value) == 'self._cache') or \
                     (o.kind == 'call' and (pf.dotted(o.expr.func) or '') in ('self._cache.get', 'self._cache.pop', 'self._cache.setdefault'))  # type: ignore[union-attr]
@@ -641,26 +911,33 @@ def _fut_awaits(v: View) -> List[Tuple[str, pf.Module, pf.FuncDef, ast.Await, bo
             fns.append((st.name, v.m, st))
     out = []
     for name, mm, fn in fns:
-        par = mm.parents()
-        # locals that hold the registered task (`task = create_task(...); self._futures[k] = task` / `t = self._futures[k] = ...`)
-        alias: Set[str] = set()
-        for w in pf.walk_shallow(fn):
-            if isinstance(w, ast.Assign) and any(_is_fut_store(t) for t in w.targets):
-                alias |= {t.id for t in w.targets if isinstance(t, ast.Name)}
-                if isinstance(w.value, ast.Name):
-                    alias.add(w.value.id)
+        alias = _task_aliases(fn)
         for a in pf.walk_shallow(fn):
             if not isinstance(a, ast.Await):
                 continue
-            for x in ast.walk(a.value):
-                if (isinstance(x, ast.Subscript) and isinstance(x.ctx, ast.Load) and pf.nsrc(x.value) == FUT) or (isinstance(x, ast.Name) and x.id in alias):
-                    cur = par.get(x)
-                    shielded = False
-                    while cur is not None and cur is not a:
-                        if isinstance(cur, ast.Call) and pf.dotted(cur.func) in ('asyncio.shield', 'shield'):
-                            shielded = True
-                        cur = par.get(cur)
-                    out.append((name, mm, fn, a, shielded))
+            ms = _task_mentions(fn, a.value, alias)
+            if ms:
+                out.append((name, mm, fn, a, all(ms)))
+    return out
+
+
+def _await_roles(v: View) -> Dict[int, Tuple[str, str]]:
+    """id(await of a shared task) -> (role, stable construct key).  The LOADER awaits the task it has registered itself (the await is
+    reachable from a registration in the same frame); every other await of a shared task is a WAITER.  Keys name the role, not the text."""
+    out: Dict[int, Tuple[str, str]] = {}
+    count: Dict[Tuple[str, str], int] = {}
+    seen_src: Dict[Tuple[str, str, int, int], int] = {}
+    for name, mm, fn, a, _ in sorted(_fut_awaits(v), key=lambda x: (x[0] != 'lookup', x[0], x[3].lineno, x[3].col_offset)):
+        cfg = pf.cfg(fn)
+        here = cfg.node_of(a)
+        role = 'loader' if any(af.direct(cfg, G, n) for G in _regs(cfg) for n in here) else 'waiter'
+        # copies of one source await (a helper inlined at two call sites) are the same construct
+        src_key = (name, role, a.lineno, a.col_offset)
+        if src_key not in seen_src:
+            count[(name, role)] = count.get((name, role), 0) + 1
+            seen_src[src_key] = count[(name, role)]
+        i = seen_src[src_key]
+        out[id(a)] = (role, f'{F}::{CLS}.{name}::{role} awaits the shared task' + (f' #{i}' if i > 1 else ''))
     return out
 
 
@@ -679,7 +956,20 @@ def _r3_single_flight(ctx: Ctx, v: View) -> None:
     regs = _regs(cfg)
     ctx.need(len(regs) >= 1, f'lookup: no registration `{FUT}[k] = ...` found')
     # every call of the loader is the task of a registration analysed below, or is awaited inside the task body a registration starts
-    inreg = {id(c) for G in regs for c in ast.walk(pf.resolve_expr(lk, G.ast.value)) if isinstance(c, ast.Call)}  # type: ignore[union-attr]
+    inreg: Set[int] = set()
+    for G in regs:
+        # the registered value, read through single-definition locals (`coro = self.load(k); task = create_task(coro); self._futures[k] = task`)
+        work: List[ast.AST] = [G.ast.value]  # type: ignore[union-attr]
+        while work:
+            e = work.pop()
+            for x in ast.walk(e):
+                if id(x) in inreg:
+                    continue
+                inreg.add(id(x))
+                if isinstance(x, ast.Name) and isinstance(x.ctx, ast.Load):
+                    d0 = pf.single_def(lk, x.id)
+                    if isinstance(d0, ast.expr) and id(d0) not in inreg:
+                        work.append(d0)
     loads = [c for c in pf.calls_in(lk, True) if pf.dotted(c.func) == 'self.load']
     free = [(c, 'lookup') for c in loads if id(c) not in inreg]
     for b in v.bodies.values():
@@ -694,15 +984,34 @@ def _r3_single_flight(ctx: Ctx, v: View) -> None:
                 cur = par.get(cur)
             if not awaited or [pf.nsrc(a) for a in c.args] != [b.k] or b.m.enclosing_func(c) is not b.fn:
                 free.append((c, b.name))
-    ctx.check(bool(loads) and not free, 'R3', f'{F}::{CLS}::self.load only as a registered task',
+    ctx.need(bool(loads), 'no call `self.load(...)` found in lookup / the registered task body (loader reached through an alias: not analysed)')
+    ctx.check(not free, 'R3', f'{F}::{CLS}::self.load only as a registered task',
               (f'self.load is called at line {free[0][0].lineno} in {free[0][1]} outside a `{FUT}[k] = asyncio.create_task(...)` registration (or not awaited for the task\'s own '
-               'key): that load is not shared with concurrent lookups of the key') if free else 'self.load is never called', m.path, lk.lineno)
+               'key): that load is not shared with concurrent lookups of the key') if free else '', m.path, lk.lineno)
     for st in v.cls.body:
         if isinstance(st, (ast.FunctionDef, ast.AsyncFunctionDef)) and not _on_loader_path(v, st.name):
             ctx.need(not [c for c in pf.calls_in(st, True) if pf.dotted(c.func) == 'self.load'], f'{CLS}.{st.name} calls self.load outside lookup (not analysed)')
     unshielded = [x for x in _fut_awaits(v) if not x[4]]
     for G in regs:
         _r3_one(ctx, v, G, unshielded)
+
+
+def _is_plain_fut_use(n: pf.Node, x: ast.Attribute) -> bool:
+    """the occurrence x of `self._futures` in node n is the registration target / the deregistration / a len() for logging: no membership read"""
+    a = n.ast
+    if isinstance(a, ast.Assign) and any(_is_fut_store(t) and t.value is x for t in a.targets):
+        return True
+    if isinstance(a, ast.Delete) and any(isinstance(t, ast.Subscript) and t.value is x for t in a.targets):
+        return True
+    for c in pf.node_calls(n):
+        if pf.dotted(c.func) == 'len' and len(c.args) == 1 and c.args[0] is x:
+            return True
+    return False
+
+
+def _node_awaits_task(v: View, n: pf.Node) -> bool:
+    ids = {id(a) for name, _, _, a, _ in _fut_awaits(v) if name == 'lookup'}
+    return any(id(a) in ids for a in _node_awaits(n))
 
 
 def _callback_removes(v: View, cb: ast.AST, k: str) -> Optional[bool]:
@@ -727,28 +1036,45 @@ def _callback_removes(v: View, cb: ast.AST, k: str) -> Optional[bool]:
 
 def _r3_one(ctx: Ctx, v: View, G: pf.Node, unshielded) -> None:
     lk, cfg, k, m = v.lk, v.cfg, v.k, v.mi
-    cons = f'{F}::{CLS}.lookup::{G.text()}'
+    locs = sorted({(g.ast.lineno, g.ast.col_offset) for g in _regs(cfg)})  # copies of one source statement (helper inlined twice) are one construct
+    nth = locs.index((G.ast.lineno, G.ast.col_offset)) + 1
+    cons = f'{F}::{CLS}.lookup::registration' + (f' #{nth}' if nth > 1 else '')
     tgt = [t for t in G.ast.targets if _is_fut_store(t)][0]  # type: ignore[union-attr]
-    ctx.need(pf.nsrc(tgt.slice) == k, f'{cons}: registers under a different key')
+    ctx.need(pf.nsrc(tgt.slice) == k, f'{cons}: `{G.text()}` registers under a different key')
     tc = _task_call(lk, G)
     d = pf.dotted(tc.func) if tc is not None else None
     body = v.bodies.get(d[5:]) if d and d.startswith('self.') else None
     ok_task = tc is not None and [pf.nsrc(a) for a in tc.args] == [k] and (d == 'self.load' or body is not None)
     ctx.need(ok_task, f'{cons}: registered value is not asyncio.create_task(self.load({k})) / create_task(self.<coroutine method>({k}))')
-    # guard: absent-edge of `k in self._futures`, atomically
-    tests = [t for t in cfg.nodes if t.kind == 'test' and af.mentions(t.ast, FUT)]
+    # guard: absent-edge of `k in self._futures` (any spelling, see engines/c26norm), atomically
+    tt = v.tt['lookup']
     guard = None
-    for t in tests:
+    for t in tt.tests:
         for lab in ('T', 'F'):
-            if af.every_path_uses_edge(cfg, G, t, lab) and af.direct(cfg, t, G, lab) and cf.implied(t.ast, lab, f'{k} in {FUT}', False):
+            if tt.implies(t, lab, FUT, False) and af.every_path_uses_edge(cfg, G, t, lab) and af.direct(cfg, t, G, lab):
                 guard = (t, lab)
     if guard is None:
+        # "no in-flight test" is a verdict only when every read of the in-flight map on the way to the registration is understood
+        opaque = [t for t in tt.tests if tt.foreign_atoms(t, FUT) and af.direct(cfg, t, G)]
+        ctx.need(not opaque, f'{cons}::guard: `{pf.nsrc(opaque[0].ast) if opaque else ""}` reads {FUT} in a way that is not a membership test of `{k}` (not analysed)')
+        accounted = {id(d) for t in tt.tests for d in tt.decisions(t)}
+        stray = [n for n in cfg.nodes if n.ast is not None and n.kind != 'test' and n is not G and id(n) not in accounted and af.direct(cfg, n, G)
+                 and any(_reads_fut(x) or (isinstance(x, ast.Attribute) and pf.nsrc(x) == FUT and isinstance(x.ctx, ast.Load) and not _is_plain_fut_use(n, x))
+                         for e in pf.node_exprs(n) for x in pf.walk_shallow(e)) and not _node_awaits_task(v, n)]
+        ctx.need(not stray, f'{cons}::guard: `{stray[0].text() if stray else ""}` reads {FUT} before the registration outside a test (EAFP / helper idiom: not analysed)')
         ctx.bad('R3', cons + '::guard', f'the load is registered without first finding `{k} in {FUT}` false: concurrent lookups of one key each start a load '
                 '(and overwrite each other\'s registration)', m.path, G.lineno)
         af.blocked(ctx, 'R3', 'R3')
     else:
         t, lab = guard
-        aw = [x for x in af.between(cfg, t, G, lab) if pf.node_has_await(x)]
+        seen_at = tt.observed_at(t)
+        if tt.decisions(t):
+            # the in-flight fact was read into a local: it was observed at the definition, and nothing may change the map before it is tested
+            wr = [x for d in seen_at for x in af.between(cfg, d, t) if any(w[0] == FUT for w in _map_writes(m, x.ast))] if all(d is not t for d in seen_at) else []
+            ctx.need(not wr, f'{cons}::guard: `{wr[0].text() if wr else ""}` changes {FUT} between reading it into a local and testing the local (not analysed)')
+            aw = [x for d in seen_at for x in ([d] if pf.node_has_await(d) else []) + af.between(cfg, d, G) if pf.node_has_await(x)]
+        else:
+            aw = [x for x in af.between(cfg, t, G, lab) if pf.node_has_await(x)]
         ctx.check(not aw, 'R3', cons + '::guard', f'`{aw[0].text() if aw else ""}` suspends between the `{k} in {FUT}` test and the registration: two lookups both '
                   'see "no load in flight" and both load', m.path, G.lineno, detail={'test': pf.nsrc(t.ast), 'edge': lab})
         # the other edge: no load started
@@ -756,12 +1082,14 @@ def _r3_one(ctx: Ctx, v: View, G: pf.Node, unshielded) -> None:
         starts = af.direct(cfg, t, G, other)
         ctx.check(not starts, 'R3', f'{F}::{CLS}.lookup::waiter starts no load', 'a lookup that finds a task in flight can still reach the registration and start another load',
                   m.path, t.lineno)
-        # also atomic from the cache-miss decision
-        miss = [x for x in cfg.nodes if x.kind == 'test' and pf.nsrc(x.ast) == f'{k} in self._cache']
-        if miss:
-            aw2 = [x for x in af.between(cfg, miss[0], G, 'F') if pf.node_has_await(x)]
+        # also atomic since the cache-miss decision
+        for mt, ml in tt.edges(CACHE, False):
+            if not af.every_path_uses_edge(cfg, G, mt, ml):
+                continue
+            aw2 = [x for d in tt.observed_at(mt) for x in (af.between(cfg, d, G, ml) if d is mt else af.between(cfg, d, G)) if pf.node_has_await(x)]
             ctx.check(not aw2, 'R3', cons + '::atomic since miss', f'`{aw2[0].text() if aw2 else ""}` suspends between the cache-miss decision and the registration: '
                       'a load that completes in between is repeated', m.path, G.lineno)
+            break
 
     # ---- removal of the registration ------------------------------------------------------------------------------------
     consd = f'{F}::{CLS}.lookup::deregistration'
@@ -787,8 +1115,23 @@ def _r3_one(ctx: Ctx, v: View, G: pf.Node, unshielded) -> None:
     if frame_dels or not (callback_ok or body_dels):
         # (i) the registering frame removes it: on every exit, and on cancellation at each of its suspension points
         leak = cfg.path_avoiding(G, lambda n: n is cfg.exit or n is cfg.raise_exit, lambda n: any(n is dn for dn in dels))
+        if not dels and not callback_ok:
+            # "nobody removes the registration" is a verdict only if no code of the class touches the map in a way this rule does not follow
+            known_nodes = {id(x.ast) for x in dels}
+            for n2 in cbn:  # removals inside a recognised done-callback are followed above
+                known_nodes |= {id(x) for c in pf.node_calls(n2) for x in ast.walk(c)}
+            for dfn in [x for x in ast.walk(lk) if isinstance(x, ast.FunctionDef) and any(isinstance(c.func, ast.Attribute) and c.func.attr == 'add_done_callback' and c.args
+                                                                                           and isinstance(c.args[0], ast.Name) and c.args[0].id == x.name for n2 in cbn for c in pf.node_calls(n2))]:
+                known_nodes |= {id(x) for x in ast.walk(dfn)}
+            others = [(f.name, w) for f in [lk] + [f2 for f2 in v.cls.body if isinstance(f2, (ast.FunctionDef, ast.AsyncFunctionDef)) and f2.name not in ('__init__', 'lookup')]
+                      for w in _map_writes(v.m, f, nested=True) if w[0] == FUT and w[1] != 'set' and id(w[3]) not in known_nodes]
+            passed = [c for c in pf.calls_in(lk, True) if any(isinstance(a2, ast.Attribute) and pf.nsrc(a2) == FUT for a2 in list(c.args) + [kw.value for kw in c.keywords])]
+            ctx.need(not others and not passed and not any(r is None for r in cb_verdicts), f'{consd}: the registration is removed by `{pf.nsrc(others[0][1][3]) if others else (pf.nsrc(passed[0]) if passed else "a done-callback")}` '
+                     f'({others[0][0] if others else "lookup"}), a mechanism this rule does not follow (not analysed)')
         ctx.check(bool(dels) and leak is None or callback_ok, 'R3', consd, 'some exit of the loader leaves the finished/failed task registered: later lookups of that key await the '
                   'old task for ever (stale value after expiry, or the old error)' + (f' (via `{leak[-2].text()}`)' if leak and len(leak) > 1 else ''), m.path, G.lineno)
+        roles = _await_roles(v)
+        nth = 0
         for n in af.stmt_nodes(cfg, pf.node_has_await):
             if not af.direct(cfg, G, n):
                 continue
@@ -798,8 +1141,11 @@ def _r3_one(ctx: Ctx, v: View, G: pf.Node, unshielded) -> None:
                 if isinstance(a, ast.Await):
                     blocks, _ = af.cancel_blocks(m, lk, a)
                     cleaned = any(_stmt_deregs(st) for _, b in blocks for st in b)
-                    ctx.check(cleaned or callback_ok, 'R3', consd + f'::on cancellation of `{pf.nsrc(a)}`',
-                              'when the loader is cancelled at this await no finally/except removes the registration', m.path, a.lineno)
+                    ctx.need(cleaned or callback_ok or not af.enclosing_with(m, lk, a), f'{consd}: `{pf.nsrc(a)}` is awaited inside a with-block whose exit may clean up (not analysed)')
+                    nth += 1
+                    what = 'its await of the shared task' if id(a) in roles else f'suspension point #{nth} after the registration'
+                    ctx.check(cleaned or callback_ok, 'R3', consd + f'::on cancellation at {what}',
+                              f'when the loader is cancelled at `{pf.nsrc(a)}` no finally/except removes the registration', m.path, a.lineno)
         if frame_dels:
             _r3_not_before_task_end(ctx, v, G, frame_dels, consd)
         raising = [x for x in frame_dels if isinstance(x.ast, ast.Delete) or ((c2 := af.node_is_call(x, f'{FUT}.pop')) is not None and len(c2.args) == 1)]
@@ -898,11 +1244,10 @@ def _r3_not_before_task_end(ctx: Ctx, v: View, G: pf.Node, frame_dels: List[pf.N
 
 def _r4_shield(ctx: Ctx, v: View) -> None:
     n = 0
+    roles = _await_roles(v)
     for name, mm, fn, a, shielded in _fut_awaits(v):
         n += 1
-        role = 'loader' if any(isinstance(w, ast.Assign) and any(_is_fut_store(t) for t in w.targets)
-                               for w in pf.walk_shallow(fn)) and not isinstance(_stmt_of(mm, fn, a), ast.Return) else 'waiter'
-        cons = f'{F}::{CLS}.{name}::{pf.nsrc(a)}'
+        role, cons = roles[id(a)]
         if role == 'waiter':
             msg = (f'`{pf.nsrc(a)}` awaits the shared load task without asyncio.shield: if this waiting lookup is cancelled the await cancels the shared task, '
                    'so the loader and every other waiter get CancelledError although their load did not fail and they were not cancelled')
@@ -1185,7 +1530,7 @@ def _r5_sites(ctx: Ctx, cm: pf.Module) -> List[Tuple[str, Dict[str, ast.Constant
     for rel, what in ((AU, 'session'), (JAR, 'jar')):
         m = pf.load(rel)
         par = m.parents()
-        sites = [c for c in ast.walk(m.tree) if isinstance(c, ast.Call) and pf.dotted(c.func) == CLS]
+        sites = [c for c in ast.walk(m.tree) if isinstance(c, ast.Call) and (pf.dotted(c.func) == CLS or (isinstance(c.func, ast.Subscript) and pf.dotted(c.func.value) == CLS))]
         ctx.need(len(sites) >= 1, f'{rel}: no construction of {CLS}')
         attrs = []
         for c in sites:
@@ -1221,16 +1566,38 @@ def _r5_sites(ctx: Ctx, cm: pf.Module) -> List[Tuple[str, Dict[str, ast.Constant
         if rel != AU:
             continue
         ctx.need(attrs, f'{AU}: the cache is not stored in an attribute')
+        members = {st.name for st in ccls.body if isinstance(st, (ast.FunctionDef, ast.AsyncFunctionDef))} | {x.attr for x in ast.walk(ccls) if isinstance(x, ast.Attribute)
+                                                                                                         and isinstance(x.value, ast.Name) and x.value.id == 'self'}
+        nuse = 0
+
+        def judge(n: ast.AST, fn, q: str, depth: int = 2) -> None:
+            """n evaluates to the cache object: what is done with it?"""
+            nonlocal nuse
+            p = par.get(n)
+            if isinstance(p, ast.Attribute) and p.value is n:
+                nuse += 1
+                role = 'lookup' if p.attr == 'lookup' else 'shutdown' if p.attr == 'shutdown' else f'.{p.attr}'
+                cons = f'{AU}::{q}::cache use {role}'
+                if p.attr in ('lookup', 'shutdown'):
+                    ctx.ok('R5', cons, pf.nsrc(par.get(p) or p))  # called, awaited later, handed to gather/create_task: still the public entry point
+                elif p.attr in members:
+                    ctx.bad('R5', cons, f'`{pf.nsrc(par.get(p) or p)}` reaches into the cache object (`.{p.attr}`) instead of going through `await ....lookup(k)`: internal maps are '
+                            f'read/written without the expiry, capacity and single-flight logic', m.path, n.lineno)
+                else:
+                    raise AnalysisError(f'{cons}: `.{p.attr}` is not a member of {CLS} (not analysed)')
+                return
+            if isinstance(p, ast.Assign) and p.value is n and len(p.targets) == 1 and isinstance(p.targets[0], ast.Name) and fn is not None and depth > 0 \
+                    and pf.single_def(fn, p.targets[0].id) is n:
+                for u in pf.walk_shallow(fn):
+                    if isinstance(u, ast.Name) and u.id == p.targets[0].id and isinstance(u.ctx, ast.Load):
+                        judge(u, fn, q, depth - 1)
+                return
+            raise AnalysisError(f'{AU}::{q}: the cache object escapes through `{pf.nsrc(p) if p is not None else pf.nsrc(n)}` (not analysed)')
         for n in ast.walk(m.tree):
             if isinstance(n, ast.Attribute) and n.attr in attrs and isinstance(n.ctx, ast.Load):
                 fn = m.enclosing_func(n)
-                q = m.qualname(fn) if fn is not None else '<module>'
-                p = par.get(n)
-                cons = f'{AU}::{q}::{pf.nsrc(p) if p is not None else pf.nsrc(n)}'
-                okuse = isinstance(p, ast.Attribute) and p.value is n and p.attr in ('lookup', 'shutdown') and isinstance(par.get(p), ast.Call) \
-                    and (p.attr != 'lookup' or isinstance(par.get(par[p]), ast.Await))
-                ctx.check(okuse, 'R5', cons, f'`{pf.nsrc(p) if p is not None else pf.nsrc(n)}` uses the cache other than through `await ....lookup(k)`: internal maps are '
-                          f'read/written without the expiry, capacity and single-flight logic', m.path, n.lineno)
+                judge(n, fn, m.qualname(fn) if fn is not None else '<module>')
+        ctx.need(nuse >= 1, f'{AU}: the cache attribute is never used')
     return configs
 
 
@@ -1240,7 +1607,8 @@ def _class_side(ctx: Ctx, m: pf.Module) -> None:
     ctx.unit('helpers_inlined_into_lookup', len(v.il.inlined))
     ctx.unit('task_bodies', len(v.bodies))
     cs = _ClassState(v)
-    _r1_maps(ctx, m, cls)
+    _prims(ctx, v)
+    _r1_maps(ctx, v)
     _r1_put_callers(ctx, v)
     _r1_capacity(ctx, v)
     _r1_side_tables(ctx, v, cs)
@@ -1259,7 +1627,7 @@ def run(ctx: Ctx) -> None:
                        'registration/deregistration ownership of the in-flight map including cancellation exits and never-started tasks, a closure over every await of a '
                        'shared task, constant propagation of constructor options from the session and JAR sites.')
     ctx.rule('R1', 'every insertion is followed atomically by capacity test + eviction; _put/_remove keep the three maps in step (and in key-function order); '
-                   'no other mutation; per-instance maps; no per-key side table that the capacity does not cover', 20)
+                   'no other mutation; per-instance maps; no per-key side table that the capacity does not cover', 17)
     ctx.rule('R2', 'expiry = monotonic_ns + lifetime_ns; a cached value is returned only after, atomically, its expiry was compared with the same clock '
                    'and expired entries removed; every returned / stored value is the awaited load result', 9)
     ctx.rule('R3', 'single flight: registration atomic after the in-flight test, one load call site, waiters start no load, registration removed on every exit '
